@@ -177,3 +177,37 @@ func onlyPkgs(rels ...string) func(*ssa.Function) bool {
 		return !allowed[root.Package().Pkg.Path()]
 	}
 }
+
+// reachWithHelpers is BackwardReachPure(v) extended, one level, into the functions of pkg whose result
+// is among the values reached (`x.f = x.compute(n)`: what compute's results are made of is what f is made of).
+func reachWithHelpers(v ssa.Value, pkg *ssa.Package) map[ssa.Value]bool {
+	out := map[ssa.Value]bool{}
+	for x := range core.BackwardReachPure(v) {
+		out[x] = true
+	}
+	out[v] = true
+	for x := range out {
+		var call *ssa.Call
+		switch t := x.(type) {
+		case *ssa.Call:
+			call = t
+		case *ssa.Extract:
+			call, _ = t.Tuple.(*ssa.Call)
+		}
+		if call == nil {
+			continue
+		}
+		h := call.Call.StaticCallee()
+		if h == nil || h.Blocks == nil || h.Pkg != pkg {
+			continue
+		}
+		for _, r := range core.Returns(h) {
+			for i := range r.Results {
+				for y := range core.BackwardReachPure(core.RetOperand(r, i)) {
+					out[y] = true
+				}
+			}
+		}
+	}
+	return out
+}
